@@ -16,6 +16,10 @@ def main():
     ap.add_argument("--replay")
     a = ap.parse_args()
     prop = a.prop.upper()
+    if a.replay and not sys.flags.optimize:
+        try: under_o = "-O" in (json.load(open(a.replay)).get("interpreter") or "")
+        except Exception: under_o = False
+        if under_o: os.execv(sys.executable, [sys.executable, "-b", "-O", os.path.abspath(__file__)] + sys.argv[1:])
     try: seed = int(os.environ.get("VERIF_SEED") or "1")
     except ValueError: seed = 1
     t0 = time.time()
@@ -108,6 +112,23 @@ def main():
         lib.write_evidence(prop, a.tier, seed, t0, coverage, P.ASSUMPTIONS, 1)
         print(f"{prop}: no longer shown to hold: {what}")
         print(f"VIOLATION property={prop} replay={path} no-failing-input-found"); sys.exit(1)
+    # a second pass under `python -O` for the properties that say what is REFUSED (arguments, strings, replies, types): under -O an
+    # `assert` is no statement at all, so a refusal that has become an assert is visible only there.  Quick tier, same seed; its own verdict
+    OPTIMIZED = {"C02", "C04", "C09", "C12", "C14", "C15", "C19"}
+    if prop in OPTIMIZED and not sys.flags.optimize and not a.replay and not os.environ.get("VERIF_NO_OPT_PASS"):
+        import subprocess, tempfile
+        with tempfile.TemporaryDirectory(prefix="verif-opt-") as tmp:
+            r = subprocess.run([sys.executable, "-b", "-O", os.path.abspath(__file__), prop, "--tier", "quick"], capture_output=True, text=True,
+                               env=dict(os.environ, VERIF_EVIDENCE_DIR=tmp, VERIF_BUDGET_S=str(int(budget))))
+        tail = [l for l in r.stdout.strip().split("\n") if l][-4:]
+        if r.returncode != 0:
+            coverage["notes"] = out.notes + ["second pass under python -O: " + " / ".join(tail)[:600]]
+            lib.write_evidence(prop, a.tier, seed, t0, coverage, P.ASSUMPTIONS, 1)
+            print(f"{prop}: under python -O (assert statements removed):")
+            print("\n".join(tail) if any(l.startswith("VIOLATION") for l in tail) else f"VIOLATION property={prop} replay={lib.write_replay(prop, {'property': prop, 'kind': 'unproved', 'what_no_longer_checks': 'the second pass under python -O ended with exit code %d: %s' % (r.returncode, (r.stderr or r.stdout)[-400:]), 'theorems': names, 'input': None, 'stream': None})} no-failing-input-found")
+            sys.exit(1)
+        out.notes.append("second pass under python -O (quick tier): " + (tail[-1] if tail else "held"))
+        coverage["notes"] = out.notes
     lib.write_evidence(prop, a.tier, seed, t0, coverage, P.ASSUMPTIONS, 0)
     print(f"{prop} {a.tier}: held on everything explored ({out.evaluations} cases in {len(out.streams)} streams, "
           f"{coverage['discharged']}/{coverage['obligations']} theorems re-checked, {time.time() - t0:.1f} s)")
